@@ -57,6 +57,11 @@ CLAIMS = {
          "Responses with 0..6 messages and 0..3 environment changes are delivered under every kind of packetisation (special packages get parsed, rolled back and re-parsed) with hooks registered before or between responses; the event log must show every hook called exactly once per non-informational message / member, with equal contents, in arrival and registration order and before later packages reach the consumer; informational messages and environment changes are never delivered; PacketSize() follows the last PACKSIZE member; a failing callback's error matches the callback error and carries the messages that preceded the failure.",
          "'Messages received so far' = delivered before the failing package; hooks are not registered while a response is in flight; packet level (single goroutine).",
          "DESIGN.md section 3, C11"),
+ "C12": ("exploration",
+         "rapid-generated concurrent histories (concurrent NewChannel, per-channel request/response rounds, peer interleaving order, junk packets, concurrent Close, GOMAXPROCS) against a scripted peer under the race detector, plus a slice over real NewConn on loopback TCP; oracle = per-channel scripts and the peer's view of every client packet",
+         "Each history creates up to 16 channels concurrently against a peer that acknowledges channel setup, waits for all requests of a round and interleaves the per-channel responses packet by packet in a generated order; ids must be distinct, every channel must receive exactly its own script in order, the peer must see the right channel id, consecutive packet numbers and the channel's own request text in every packet, packets for unknown ids must produce one connection error each and disturb nothing; data races are reported by the race detector (only reports with a library frame on top of an access count).",
+         "Schedules are sampled (GOMAXPROCS 1/2/4/16, goroutine per channel), not enumerated; one sender/consumer per channel; junk packets are injected while no consumer waits.",
+         "DESIGN.md section 3, C12"),
  "C14": ("fault_enumeration",
          "exhaustive fault-offset enumeration over rapid-generated responses: transport failure injected after every byte offset x failure kind, through the real reader goroutine; oracle = exact complete-packet prefix of the delivery model, then an error within the bound",
          "For generated responses (<= 400 bytes, 1..5 packets) the scripted transport starts failing after every byte offset 0..len with EOF, a reset-style and a timeout-style error (read timeout 0 s exhaustively, 1 s sampled); the consumer must get exactly the packages contained in completely received packets, a synthetic final DONE only if the EOM packet arrived completely, and then an error within PacketReadTimeout + 2 s; write-side faults (error / short count at write j) must surface as errors from SendPackage.",
